@@ -70,6 +70,11 @@ def mutants_of(stmt: ast.stmt, whole_function: bool) -> List[Tuple[str, Callable
                     x.args[0], x.args[1] = x.args[1], x.args[0]
                     return True
                 out.append((f"swap first two arguments of {nm}()", lambda t, k=k, m=m2: _apply(t, k, m)))
+            if len(n.args) >= 2 and not any(isinstance(a, ast.Starred) for a in n.args):
+                def m2b(x):
+                    x.args.pop()
+                    return True
+                out.append((f"drop last positional argument of {nm}()", lambda t, k=k, m=m2b: _apply(t, k, m)))
             for i, kw in enumerate(n.keywords):
                 if kw.arg:
                     def m3(x, i=i):
